@@ -8,7 +8,7 @@ stateless ICU4X calls made with those expected options.
 """
 import json, os
 HERE = os.path.dirname(os.path.abspath(__file__))
-LOCALES = ["en", "fr", "de", "ja", "ar", "ru"]
+LOCALES = ["en", "fr", "de", "ja", "ar", "ru", "pt", "pt-PT"]
 
 keys = []  # (name, formatter_text, kind, expected tuple)
 
@@ -82,6 +82,16 @@ add("dt", "datetime(date_length: short; time_length: short)", ("Short", "Short")
 add("list", "list(list_type: and; list_style: wide)", ("And", "Wide"))
 
 FORMS = ["zero", "one", "two", "few", "many", "other"]
+
+# (rust literal, its decimal expansion written by hand)
+TYPED = [
+    ("200u8", "200"), ("-100i8", "-100"), ("65535u16", "65535"), ("-32768i16", "-32768"), ("4294967295u32", "4294967295"),
+    ("-2147483648i32", "-2147483648"), ("18446744073709551615u64", "18446744073709551615"), ("-9223372036854775808i64", "-9223372036854775808"),
+    ("340282366920938463463374607431768211455u128", "340282366920938463463374607431768211455"),
+    ("-170141183460469231731687303715884105728i128", "-170141183460469231731687303715884105728"),
+    ("123456usize", "123456"), ("-123456isize", "-123456"),
+    ("0.5f32", "0.5"), ("-2.25f32", "-2.25"), ("1234.5f32", "1234.5"), ("16777216.0f32", "16777216"), ("3.0e9f32", "3000000000"),
+]
 
 def locale_file(loc):
     d = {}
@@ -192,6 +202,29 @@ out.append("        _ => unreachable!(),")
 out.append("    }")
 out.append("}")
 out.append("")
+out.append("/// route 4c: `tu_format!` on a reactive context: the view is created under one locale and rendered after the locale changed;")
+out.append("/// the untracked read still happens when the view is rendered, so it shows the locale current at that moment")
+out.append("pub fn call_site_ctx_untracked(site: usize, i18n: leptos_i18n::I18nContext<Locale>, vi: usize) -> Box<dyn FnOnce() -> String> {")
+out.append("    let vals: &'static [Val] = crate::fixture::static_values();")
+out.append("    match site {")
+for i, (kind, fmt, exp) in enumerate(sites):
+    acc = {"num": "x.num()", "cur": "x.num()", "date": "x.date()", "time": "x.time()", "dt": "x.datetime()", "list": "x.list()"}[kind]
+    acc = acc.replace("x.", "vals[vi].")
+    out.append(f"        {i} => {{ let view = tu_format!(i18n, move || {acc}, formatter: {fmt}); Box::new(move || crate::fixture::render(view)) }}")
+out.append("        _ => unreachable!(),")
+out.append("    }")
+out.append("}")
+out.append("")
+out.append("/// route 4d: `tu_format_string!` / `tu_format_display!` (evaluated immediately for the current locale, untracked)")
+out.append("pub fn call_site_ctx_string_untracked(site: usize, i18n: leptos_i18n::I18nContext<Locale>, v: &Val) -> String {")
+out.append("    match site {")
+for i, (kind, fmt, exp) in enumerate(sites):
+    arg = {"num": "v.num()", "cur": "v.num()", "date": "&v.date()", "time": "&v.time()", "dt": "&v.datetime()", "list": "v.list()"}[kind]
+    out.append(f"        {i} => format!(\"{{}}\\u{{2}}{{}}\", tu_format_string!(i18n, {arg}, formatter: {fmt}), tu_format_display!(i18n, {arg}, formatter: {fmt})),")
+out.append("        _ => unreachable!(),")
+out.append("    }")
+out.append("}")
+out.append("")
 out.append("/// route 1b: `td_display!` on a fixture key (same helper as td_string! but through the Display wrapper)")
 out.append("pub fn call_key_display(key: usize, locale: Locale, v: &Val) -> String {")
 out.append("    match key {")
@@ -221,6 +254,39 @@ out.append("    } else {")
 out.append("        td_plural!(locale, count = c, zero => \"zero\", one => \"one\", two => \"two\", few => \"few\", many => \"many\", _ => \"other\")")
 out.append("    }")
 out.append("}")
+out.append("")
+out.append("/// `t_plural!` / `tu_plural!` (and the ordinal flavours) on a reactive context: closures that match the count against")
+out.append("/// the plural rules of the locale current when they are called (`t_*`: a closure) or evaluated (`tu_*`: a value)")
+out.append("pub fn call_ctx_plural(ordinal: bool, i18n: leptos_i18n::I18nContext<Locale>, count: u64) -> (Box<dyn Fn() -> &'static str>, &'static str) {")
+out.append("    use leptos_i18n::plurals::{t_plural, t_plural_ordinal, tu_plural, tu_plural_ordinal};")
+out.append("    let c = move || count;")
+out.append("    if ordinal {")
+out.append("        let a = t_plural_ordinal!(i18n, count = c, zero => \"zero\", one => \"one\", two => \"two\", few => \"few\", many => \"many\", _ => \"other\");")
+out.append("        let b = tu_plural_ordinal!(i18n, count = c, zero => \"zero\", one => \"one\", two => \"two\", few => \"few\", many => \"many\", _ => \"other\");")
+out.append("        (Box::new(a), b)")
+out.append("    } else {")
+out.append("        let a = t_plural!(i18n, count = c, zero => \"zero\", one => \"one\", two => \"two\", few => \"few\", many => \"many\", _ => \"other\");")
+out.append("        let b = tu_plural!(i18n, count = c, zero => \"zero\", one => \"one\", two => \"two\", few => \"few\", many => \"many\", _ => \"other\");")
+out.append("        (Box::new(a), b)")
+out.append("    }")
+out.append("}")
+out.append("")
+out.append("/// numbers of every integer type and f32 (`IntoFixedDecimal`), through a number / currency key")
+out.append("pub fn call_key_typed(key: usize, locale: Locale, ty: usize) -> Option<String> {")
+out.append("    macro_rules! typed { ($name:ident) => { match ty { " + " ".join(f"{i} => td_string!(locale, $name, v = {lit}).to_string()," for i, (lit, _) in enumerate(TYPED)) + " _ => return None } } }")
+out.append("    Some(match key {")
+for i, (name, text, kind, exp) in enumerate(keys):
+    if kind in ("num", "cur") and i % 3 == 0:
+        out.append(f"        {i} => typed!({name}),")
+out.append("        _ => return None,")
+out.append("    })")
+out.append("}")
+out.append("")
+out.append("/// decimal text of each typed literal above, written by hand")
+out.append("pub const TYPED: &[(&str, &str)] = &[")
+for lit, dec in TYPED:
+    out.append(f"    ({json.dumps(lit)}, {json.dumps(dec)}),")
+out.append("];")
 out.append("")
 out.append("/// plural keys: td_string! with a count (get_plural_rules cache)")
 out.append("pub fn call_plural(ordinal: bool, locale: Locale, count: u64) -> String {")
